@@ -796,10 +796,14 @@ pub fn oracle_c06(scn: &E1Scn, d: &Digest, stats: &mut Stats) -> Vec<Violation> 
             if d.task_end.map(|te| te.0 <= t).unwrap_or(false) {
                 continue;
             }
-            if d.children.iter().any(|c| c.spawn_t == t || c.exit.map(|e| e.0 == t).unwrap_or(false)) {
-                continue; // tie with a child transition: state at send time is ambiguous
+            // tie with a child transition: state at send time is ambiguous. (Controls of this family are seconds apart, so
+            // a death *by signal or kill* at the send instant, and a spawn that follows such a death, are this control's own
+            // doing - a zero grace period, a ForceStop - and the process was running when it arrived. Added after A18-C06r.)
+            let killed_now = d.children.iter().any(|c| c.spawn_t < t && c.exit.map(|e| e.0 == t && e.1 >= 1000).unwrap_or(false));
+            if d.children.iter().any(|c| (c.spawn_t == t && !killed_now) || c.exit.map(|e| e.0 == t && e.1 < 1000).unwrap_or(false)) {
+                continue;
             }
-            let running = d.children.iter().any(|c| c.spawn_t < t && c.exit.map(|e| e.0 > t).unwrap_or(true));
+            let running = d.children.iter().any(|c| c.spawn_t < t && c.exit.map(|e| e.0 > t || (e.0 == t && e.1 >= 1000)).unwrap_or(true));
             let expect = match st.op {
                 Op::Start => (!running) as usize,
                 Op::Restart | Op::RestartSig { .. } => 1,
